@@ -139,7 +139,7 @@ func checkAssigns(eng *Engine, fa *frameAnalysis, fn *ssa.Function, con *Contrac
 		if b := baseIdent(a.E); b != "" {
 			allowed[b] = true
 		}
-		if gc, ok := a.E.(ECall); ok && gc.Fun == "deep" && len(gc.Args) == 1 {
+		if gc, ok := a.E.(ECall); ok && (gc.Fun == "deep" || gc.Fun == "spare") && len(gc.Args) == 1 {
 			if b := baseIdent(gc.Args[0]); b != "" {
 				allowed[b] = true
 			}
